@@ -150,4 +150,12 @@ func showSpans(src string) string {
 func init() {
 	stages["parse"] = func(f []string) string { return showParse(unhx(f[0])) }
 	stages["spans"] = func(f []string) string { return showSpans(unhx(f[0])) }
+	// gram: the model side answers OK only when the accepted program is a program of the grammar
+	// (coq/Spec/Grammar.v: gprog); the implementation side says whether Parse accepted
+	stages["gram"] = func(f []string) string {
+		if _, err := parser.Parse(unhx(f[0])); err != nil {
+			return "ERR"
+		}
+		return "OK"
+	}
 }
